@@ -321,9 +321,18 @@ class Loops:
 
     # ---- for -----------------------------------------------------------------------------------------------
     def exec_for(self, I, node, frame):
-        it = I.unwrap(I.ev(node.iter, frame), node)
+        enum = None
+        if isinstance(node.iter, ast.Call) and isinstance(node.iter.func, ast.Name) and node.iter.func.id == 'enumerate' \
+                and len(node.iter.args) == 1 and not node.iter.keywords and 'enumerate' not in frame.env:
+            # for i, x in enumerate(xs): the same iteration space as xs, the index bound alongside
+            enum = True
+            it = I.unwrap(I.ev(node.iter.args[0], frame), node)
+        else:
+            it = I.unwrap(I.ev(node.iter, frame), node)
         spec, k = self.spec_for(frame, node)
         concrete = self.concrete_items(I, it)
+        if enum and concrete is not None:
+            concrete = [VTuple([VInt(z3.IntVal(i_)), x_]) for i_, x_ in enumerate(concrete)]
         if concrete is not None and spec is None:
             broke = False
             for x in concrete:
@@ -355,6 +364,9 @@ class Loops:
                 s = I.seq_of(it, node)
                 n_iter = s.th.Len(s.t)
                 elem = lambda kk: I.wrap_elem(s, s.th.Idx(s.t, kk))
+        if enum:
+            elem0 = elem
+            elem = lambda kk: VTuple([VInt(kk), elem0(kk)])
         zero = z3.IntVal(0)
         for j, v in enumerate(self.eval_clauses(I, spec, frame, 'invariant', k_val=zero)):
             I.prove('%s:inv-entry#loop%d.%d' % (fq, k, j + 1), 'invariant', I.truthy(v), node)
